@@ -94,7 +94,10 @@ int main(int argc, char **argv)
             else if (op == "tmap_set")
                 reg.tmaps.at((long)cmd["map"])->scale = hx::num(cmd["scale"]);
             else if (op == "smap_new")
+            {
                 reg.smap_gain[(long)cmd["map"]] = hx::num(cmd["gain"]);
+                reg.smap_pin[(long)cmd["map"]] = cmd.value("pin", -1);
+            }
             else if (op == "smap_set")
             {
                 const long id = cmd["map"];
